@@ -2,7 +2,7 @@
 import os
 from mirlib import *
 from ranges import *
-import factsbuild, r_encclass, r_state, r_effect, r_kernel, scan, r_lane
+import factsbuild, r_encclass, r_state, r_effect, r_kernel, scan, r_lane, r_endian
 from paths import loop_heads
 
 MANIFEST = {
@@ -25,7 +25,8 @@ MANIFEST = {
             'bidi/Latin1 byte automata) are each decided against the same definition in every family (R-KERNEL/R-STRIDE part coverage, order, '
             'position accounting, stride-test coverage; R-SCAN acceptance/all-clear/rejection; R-LANE exact lane sets of the SIMD predicates, see '
             'C14-D5..D7, C16-D6), so the families agree wherever those rules decide. Equality of the arithmetic in alternative function bodies (shift_jis_to_euc_jp etc.) and of the SIMD '
-            'pack/unpack/swizzle lane arithmetic is numerical and not decided.',
+            'pack/unpack/swizzle lane arithmetic is numerical and not decided. ' 
+            '(R-ENDIAN) every code unit the UTF-16LE/BE decoders read from the unaligned byte source (UnalignedU16Slice::at / simd_at) reaches its uses only through the endianness adapter: swap_if_opposite_endian, or simd_byte_swap / swap_bytes on the E::OPPOSITE_ENDIAN branch and unswapped on the other (every region path of every reading body).',
     'note': 'Trusted: rustc const evaluation, mirx, rule library, tests/test_data/*_in.txt + *_in_ref.txt as copies of the WHATWG indexes, the Standard\'s index-pointer rules as transcribed here.',
     'technique': 'exhaustive data-vs-data agreement over const-evaluated statics per feature configuration + sibling comparison of extracted classes + per-family must-pass-through / accounting rules on the iterator kernels and abstract interpretation of the scalar automata',
 }
@@ -261,6 +262,7 @@ def run(rep, facts, tier):
     for c, f in facts.items():
         if c in ('default', 'simd', 'simdstd', 'noalloc'):
             r_kernel.run(rep, f, c, 'R-KERNEL', ['validate', 'copy', 'classify'])
+            r_endian.run(rep, f, c)
             if c.startswith('simd'):
                 r_lane.run(rep, f, c)
             scan.run_specs(rep, f, c, 'R-SCAN', ['utf_8::utf8_valid_up_to', 'utf_8::convert_utf8_to_utf16_up_to_invalid', 'mem::utf16_valid_up_to',
